@@ -86,7 +86,18 @@ def partition_item(item):
         Ls = [lay.Layout('x', list(nprocs), list(dims_order), eta, list(rk)) for rk in ranks]
         return ns, Ls
 
-    for ctx, (kind, val) in symx.explore(body, timeout_ms=120000):
+    def paths():
+        # the integer-only constructor has one path for all n; a path budget keeps a changed constructor (e.g. one that goes
+        # through floating-point floors) from splitting on the unbounded extent for ever
+        try:
+            for x in symx.explore(body, timeout_ms=120000, maxpaths=48):
+                yield x
+        except RuntimeError as e:
+            if 'path budget' not in str(e):
+                raise
+            res['budget'] = str(e)
+
+    for ctx, (kind, val) in paths():
         if kind != 'ok':
             res['obligations'] += 1
             r = ctx.check()
@@ -167,6 +178,29 @@ def partition_item(item):
             res['samples'].append(dict(part='partition', nprocs=nprocs, dims_order=dims_order,
                                        example_extents=[m.eval(v, model_completion=True).as_long() for v in ns],
                                        note='extents unbounded in the proof; this is one model of the path'))
+    if (res.get('budget') or res['inconclusive']) and not res['violations']:
+        # no proof for all extents: the real constructor on concrete extents (every rank, n up to 128) may still decide
+        found = None
+        for n in range(max(mins), 129):
+            shape = [max(n, mn) for mn in mins]
+            for rk in ranks:
+                try:
+                    probs = concrete_layout_problems(real_mod, nprocs, dims_order, shape, rk)
+                except Exception as e:
+                    probs = ['exception %s: %s' % (type(e).__name__, e)]
+                if probs:
+                    found = (shape, rk, probs)
+                    break
+            if found:
+                break
+        res['obligations'] += 1
+        if found:
+            shape, rk, probs = found
+            res['violations'].append(('partition', 'extents %s, nprocs %s, rank %s: %s (witness from a concrete sweep; symbolic run: %s)' % (
+                shape, nprocs, rk, probs[0], res.get('budget') or res['inconclusive'][0]),
+                dict(kind='partition', nprocs=nprocs, dims_order=dims_order, shape=shape, rank=rk, concrete=probs, canary=bool(canary))))
+        elif res.get('budget'):
+            res['inconclusive'].append('partition %s: %s' % (nprocs, res['budget']))
     res['stats'] = symx.GLOBAL.as_dict()
     symx.GLOBAL.__init__()
     res['canary'] = item[2] is not None
